@@ -3,7 +3,6 @@
 #include "pgm/pgm_index_variants.hpp"
 #include "cpgm.h"
 #include <fstream>
-#include <omp.h>
 #include <unistd.h>
 
 namespace vf {
@@ -34,7 +33,7 @@ CaseResult reserved_case(const RunCtx &ctx, TapeReader &t, unsigned size_hint, c
         res.desc = d.str();
     }
     if (!ctx.execute) return res;
-    omp_set_num_threads(meta.threads);
+    vf_set_threads(meta.threads);
     std::string what;
     Thrown th = thrown_by([&] { build(keys, ctx); }, what);
     res.label("reserved_key_static");
